@@ -351,7 +351,7 @@ def fresh_jobs(ctx, thorough, rnd):
     objs = tzgen.systematic_sources(False)
     if not thorough:
         # always the sources whose abbreviations have the maximal length (the two implementations size their buffers separately)
-        keep = [o for o in objs if "six-character" in o["label"]]
+        keep = [o for o in objs if "six-character" in o["label"] or "slash-format" in o["label"]]
         objs = keep + rnd.sample([o for o in objs if o not in keep], 110 - len(keep))
     drawn = []
 
